@@ -29,7 +29,7 @@ var xSamples = []struct {
 	{"BE", xlatesample.BE}, {"Str", xlatesample.Str}, {"Switch", xlatesample.Switch}, {"SwitchRet", xlatesample.SwitchRet},
 	{"IfMerge", xlatesample.IfMerge}, {"Swap", xlatesample.Swap}, {"RangeSum", xlatesample.RangeSum}, {"RangeMinMax", xlatesample.RangeMinMax},
 	{"Count", xlatesample.Count}, {"CountRet", xlatesample.CountRet}, {"Struct", xlatesample.Struct}, {"Ret0", xlatesample.Ret0},
-	{"Collect", xlatesample.Collect}, {"Make", xlatesample.Make},
+	{"Collect", xlatesample.Collect}, {"Make", xlatesample.Make}, {"Search", xlatesample.Search},
 }
 
 // boundary values of a parameter type
@@ -58,7 +58,7 @@ func xGrid(t reflect.Type) []reflect.Value {
 				add(v)
 			}
 		case reflect.Int32:
-			for _, v := range [][]int32{nil, {5}, {1, 2, 3}, {2147483647, 1, 1}, {4, -2, 9}, {-2147483648}} {
+			for _, v := range [][]int32{nil, {5}, {1, 2, 3}, {2147483647, 1, 1}, {4, -2, 9}, {-2147483648}, {-100, -1, 0, 1, 2, 2, 7, 100}} {
 				add(v)
 			}
 		case reflect.Int16:
